@@ -449,12 +449,17 @@ fn do_history(a: &Value) -> Value {
       steps.push(json!(e));
       break;
     }
+    if std::str::from_utf8(sg.source().as_bytes()).is_err() {
+      // the document's `String` no longer holds UTF-8: nothing more can be asked of it
+      steps.push(json!("invalid-utf8"));
+      return json!({"steps": steps, "text": String::from_utf8_lossy(sg.source().as_bytes())});
+    }
     let mut rec: Vec<Value> = ie.as_array().unwrap().clone();
     rec.push(json!(sg.source().len()));
     rec.push(json!(fnv(sg.source().as_bytes())));
     steps.push(Value::Array(rec));
   }
-  json!({"steps": steps, "text": sg.source()})
+  json!({"steps": steps, "text": String::from_utf8_lossy(sg.source().as_bytes())})
 }
 
 /// replay helper (not part of the op stream): run a recorded history and compare the edited tree with
@@ -632,6 +637,10 @@ pub fn editdoc(ctx: &Ctx, rng: &mut Rng, o: &mut Out) {
       continue;
     }
     text_cases += 1;
+    if std::str::from_utf8(sg.source().as_bytes()).is_err() {
+      o.oracle("c10_text", false, json!({"fp": "text is not valid UTF-8 after an edit: witness", "input": a, "want": new_text}));
+      continue;
+    }
     if sg.source() != new_text {
       o.oracle("c10_text", false, json!({"fp": "text is not the splice: witness", "input": a, "got": sg.source(), "want": new_text}));
     }
@@ -697,6 +706,11 @@ pub fn editdoc(ctx: &Ctx, rng: &mut Rng, o: &mut Out) {
         break;
       }
       steps.push(st.clone());
+      if std::str::from_utf8(sg.source().as_bytes()).is_err() {
+        failed = Some(json!({"fp": format!("text is not valid UTF-8 after an edit: {}", st.class), "input": history_args(&b.dir, &text0, &steps),
+          "want": new_text, "got": String::from_utf8_lossy(sg.source().as_bytes())}));
+        break;
+      }
       model_text = new_text;
       let mut rec: Vec<Value> = ie.as_array().cloned().unwrap_or_default();
       rec.push(json!(sg.source().len()));
@@ -732,13 +746,14 @@ pub fn editdoc(ctx: &Ctx, rng: &mut Rng, o: &mut Out) {
     *per_lang.entry(b.dir.clone()).or_default() += 1;
     let a = history_args(&b.dir, &text0, &steps);
     // every 16th history is additionally replayed from its record (`exec` path = recorded path)
-    let r = json!({"steps": recs, "text": sg.source()});
+    let r = json!({"steps": recs, "text": String::from_utf8_lossy(sg.source().as_bytes())});
     if produced % 16 == 0 && do_history(&a) != r {
       o.oracle("c10_text", false, json!({"fp": "replay of a recorded history differs from the recorded run", "input": a}));
     }
     o.op("c10_history", a, r);
     if let Some(f) = failed {
-      let name = if f["fp"].as_str().unwrap_or("").starts_with("edit fails") { "c10_text" } else { "c10_tree" };
+      let fps = f["fp"].as_str().unwrap_or("");
+      let name = if fps.starts_with("edit fails") || fps.starts_with("text is not") { "c10_text" } else { "c10_tree" };
       o.oracle(name, false, f);
     }
   }
@@ -925,7 +940,11 @@ fn do_accept_edit(a: &Value) -> Value {
   };
   guard(|| {
     let ie = hooks::accept_edit_string(&mut text, &e);
-    json!({"text": text, "ie": ie})
+    // (the code under test splices the bytes of the `String` unchecked: never serialise it unchecked)
+    match std::str::from_utf8(text.as_bytes()) {
+      Ok(t) => json!({"text": t, "ie": ie}),
+      Err(_) => json!({"text": "invalid-utf8", "lossy": String::from_utf8_lossy(text.as_bytes()), "ie": ie}),
+    }
   })
 }
 
